@@ -29,7 +29,7 @@ def facts(prep):
         if "marker.txt" in set(os.listdir(os.path.join(A, "clean"))):
             findings.append({"kind": "clean-ignored", "detail": "default run did not clean the destination"})
     # 3. gofmt and vet on what compiles
-    for d in ("decl_ins", os.path.join("fresh", "testobj_ins")):
+    for d in ("decl_ins", os.path.join("fresh", "testobj_ins"), os.path.join("targets", "A", "rerun")):
         p = subprocess.run(["gofmt", "-l", os.path.join(gm, d)], stdout=subprocess.PIPE, stderr=subprocess.STDOUT, text=True)
         n += 1
         if p.stdout.strip():
